@@ -214,7 +214,7 @@ class World:
     # ------------------------------------------------------------ build on both
     def build(self, program, body, versions=None, *, fault=None, hooks=None,
               model_hooks=None, threads=True, label=None, compare=True, run_model=True,
-              step_opts=None):
+              step_opts=None, model_setup_fail=None):
         """Run one build step on the model and on the real library and compare."""
         versions = versions or {}
         sr = StepResult()
@@ -239,6 +239,7 @@ class World:
             self.api.last_build = None
         else:
             try:
+                self.api.next_setup_fail = model_setup_fail
                 v = self.api.build_versioned(self.build_name, versions, make_root(mctx, body))
                 sr.mres = ['ok', v]
             except UserBoom as e:
